@@ -20,8 +20,8 @@ BOUNDS = {'quick': {'tasks': 2, 'graphs': 'all 3 acyclic labelled graphs on 2 ta
                     'plus': '3-task hard chain and fan-in hard+soft with 1 worker', 'outcomes': KINDS,
                     'pristine-queue query': '2-task graphs and 3-task graphs without soft edges',
                     'depth': 'every run, first K = 22+11N+6W steps'},
-          'thorough': {'tasks': '<= 3', 'graphs': 'all 27 acyclic labelled graphs on 3 tasks (W=1), 2-task graphs W<=2, cycles',
-                       'outcomes': KINDS, 'depth': 'W=1: K = 22+11N+6W established by the unwinding query (every run is complete, bounded termination); W=2: first K steps of every run (unwinding query out of reach)'}}
+          'thorough': {'tasks': '<= 3', 'graphs': 'all 27 acyclic labelled graphs on 3 tasks (W=1), 2-task graphs W=1 (two workers: outside, queries need 30-75 min from an arbitrary initial environment), cycles',
+                       'outcomes': KINDS, 'depth': 'W=1 and (<= 2 tasks or no soft edge): K = 22+11N+6W established by the unwinding query (every run is complete, bounded termination); otherwise first K steps of every run (unwinding query out of reach)'}}
 EXPLANATION = ('extracted thread automata + z3 bounded model checking (QF_BV): no reachable state of any interleaving is quiescent with an '
                'unfinished thread; in the thorough tier the unwinding query also bounds the length of every run; counterexamples replayed on real threads')
 extra_coverage = sched.extra_coverage
@@ -131,7 +131,7 @@ def _job(n, hard, soft, w, tier, seed=0):
 
 
 def jobs(tier):
-    return sched.standard_jobs(tier, _job, cyclic=True, light=('n2w2-h10-s_', 'n3w1-h10-s21'))
+    return sched.standard_jobs(tier, _job, cyclic=True, light=('n2w2-h10-s_', 'n3w1-h10-s21'), no_w2=True)
 
 
 def replay(rp):
